@@ -48,6 +48,7 @@ type World struct {
 	sliceElems map[string]*Sort
 	mcIndex   map[string][]methodSpec
 	extraTypeConsts map[string]int
+	defIndex map[string]*definer
 }
 
 type dtDecl struct {
